@@ -269,16 +269,18 @@ int compare_name_indices_by_name(const void *a, const void *b)
 std::string CEscape(compat::StringView src);
 
 const char* const kKeywordList[] = {
-  "and", "and_eq", "asm", "auto", "bitand", "bitor", "bool", "break", "case",
-  "catch", "char", "class", "compl", "const", "const_cast", "continue",
+  "alignas", "alignof", "and", "and_eq", "asm", "auto", "bitand", "bitor",
+  "bool", "break", "case", "catch", "char", "char16_t", "char32_t", "class",
+  "compl", "const", "const_cast", "constexpr", "continue", "decltype",
   "default", "delete", "do", "double", "dynamic_cast", "else", "enum",
-  "explicit", "extern", "false", "float", "for", "friend", "goto", "if",
-  "inline", "int", "long", "mutable", "namespace", "new", "not", "not_eq",
-  "operator", "or", "or_eq", "private", "protected", "public", "register",
-  "reinterpret_cast", "return", "short", "signed", "sizeof", "static",
-  "static_cast", "struct", "switch", "template", "this", "throw", "true", "try",
-  "typedef", "typeid", "typename", "union", "unsigned", "using", "virtual",
-  "void", "volatile", "wchar_t", "while", "xor", "xor_eq"
+  "explicit", "export", "extern", "false", "float", "for", "friend", "goto",
+  "if", "inline", "int", "long", "mutable", "namespace", "new", "noexcept",
+  "not", "not_eq", "nullptr", "operator", "or", "or_eq", "private",
+  "protected", "public", "register", "reinterpret_cast", "restrict", "return",
+  "short", "signed", "sizeof", "static", "static_assert", "static_cast",
+  "struct", "switch", "template", "this", "thread_local", "throw", "true",
+  "try", "typedef", "typeid", "typename", "union", "unsigned", "using",
+  "virtual", "void", "volatile", "wchar_t", "while", "xor", "xor_eq"
 };
 
 std::set<std::string> MakeKeywordsMap() {
